@@ -152,8 +152,11 @@ pub fn check_case(input: &str, o: &HtmlOpts, st: &mut Stats, merge_cov: bool) {
     let imp = match run_impl(input, o) {
         Ok(i) => i,
         Err(m) => {
-            st.count("impl_panicked(C04's business)");
+            // the implementation delivered no DOM where the algorithm defines one
+            st.count("impl_panicked");
             st.observe("impl_panics", &crate::report::panic_signature(&m));
+            st.case(Some(crate::prng::hash_str(input)));
+            st.violation(&format!("impl-panic:{}", crate::report::panic_signature(&m)), &format!("input={}: html5ever panicked: {m}", show(input)), json!({"input": input, "opts": super::c03::html_opts_json(o)}));
             return;
         },
     };
